@@ -43,7 +43,7 @@ def gen_one(rng):
                 conc_builder=rng.choice(["default", None, 1, 2, 2, 4]),
                 ff_cli=rng.random() < 0.15, ff_builder=rng.random() < 0.15,
                 eager=rng.random() < 0.4, seed=rng.randrange(1, 1 << 30),
-                p_parser=rng.choice([10, 30, 60]), p_tick=rng.choice([0, 10, 30]),
+                p_parser=rng.choice([10, 30, 60]), p_tick=rng.choice([0, 10, 30]), p_multi=rng.choice([0, 0, 30, 70]),
                 max_rounds=rng.choice([60, 200, 400]))
 
 
